@@ -40,8 +40,9 @@ theorem stack_bounded_step (cx : Ctx) (ht : TableOk cx.table) (ro : Bool) (fr : 
   · intro req d g2 cr hex
     have hi := execOp_invoke _ _ _ _ _ _ _ _ _ _ hex
     have hpush : info.exec.pushes = 1 := by
-      rcases hi with ⟨he, _⟩ | ⟨k, he, _⟩
+      rcases hi with ⟨he, _⟩ | ⟨k, he, _⟩ | ⟨he, _⟩
       · rcases he with he | he <;> (rw [he]; rfl)
+      · rw [he]; rfl
       · rw [he]; rfl
     rw [(resume_spec _ req cr).2]
     simp only
